@@ -108,6 +108,9 @@ func runC20(r *fw.Run) {
 	defer func() {
 		r.Rule("C20-R12", "the gRPC planner calls the partial value accessors (ast.Document.ValueContentBytes/String, which panic for five of the nine value kinds) only after a test of the value's kind that admits their domain")
 		partialValueAccessorsGuarded(r, "C20-R12", []string{"grpcds"}, 1)
+		r.Rule("C20-R13", "in the gRPC planner and compiler the ref of an ast.Value is handed to an accessor of kind K only where the value's kind is known to be K")
+		nKR := kindRefAgreement(r, "C20-R13", []string{"grpcds"}, nil)
+		r.Note("C20-R13: %d kind-specific uses of a value's ref in grpc_datasource", nKR)
 	}()
 	r.Rule("C20-R10", "in every gRPC planner visitor a node is looked up only in the document it came from: a definition node (Walker.EnclosingTypeDefinition, TypeDefinitions, a lookup in the definition) is never handed to a method of the operation document, nor the other way round")
 	documentProvenance(r, "C20-R10", []string{"grpcds"}, 11)
